@@ -100,9 +100,14 @@ impl CopySource {
         let mut buf = String::new();
         match self {
             CopySource::Bucket { bucket, key, version_id } => {
-                write!(&mut buf, "{bucket}/{key}").unwrap();
+                // the header value is percent-encoded (`parse` decodes it): encode everything but the separators
+                buf.push_str(bucket);
+                for segment in key.split('/') {
+                    buf.push('/');
+                    buf.push_str(&urlencoding::encode(segment));
+                }
                 if let Some(version_id) = version_id {
-                    write!(&mut buf, "?versionId={version_id}").unwrap();
+                    write!(&mut buf, "?versionId={}", urlencoding::encode(version_id)).unwrap();
                 }
             }
             CopySource::AccessPoint { .. } => {
